@@ -313,6 +313,40 @@ func clientGoroutineBlockedInside(dump string) string {
 	return ""
 }
 
+// proxyAllBlocked applies the logical deadlock criterion to a goroutine dump of the
+// proxy: every goroutine with a frame in the repository's source is parked (channel
+// operation, select, mutex, or waiting for the network) - none is running or runnable.
+func proxyAllBlocked(dump string) bool {
+	i := strings.LastIndex(dump, "SIGQUIT")
+	if i >= 0 {
+		dump = dump[i:]
+	}
+	found := 0
+	for _, g := range strings.Split(dump, "\n\n") {
+		if !strings.Contains(g, "/apps/proxy/") && !strings.Contains(g, "/rtcm/") {
+			continue
+		}
+		hdr := g
+		if j := strings.IndexByte(g, '\n'); j >= 0 {
+			hdr = g[:j]
+		}
+		if !strings.HasPrefix(hdr, "goroutine ") {
+			continue
+		}
+		found++
+		parked := false
+		for _, st := range []string{"chan send", "chan receive", "select", "sync.", "semacquire", "IO wait"} {
+			if strings.Contains(hdr, st) {
+				parked = true
+			}
+		}
+		if !parked {
+			return false
+		}
+	}
+	return found > 0
+}
+
 // serverGoroutineIdle says whether the goroutine that relays server data is parked
 // waiting for network input (it has consumed everything the server sent).
 func serverGoroutineIdle(dump string) bool {
@@ -367,17 +401,29 @@ func writeChunks(w io.Writer, data []byte, chunk, gapUs int, r *ref.SplitMix64) 
 	return nil
 }
 
-// readN reads until n bytes have arrived, the connection ends, or a generous wait expires.
-func readN(conn net.Conn, n int, d time.Duration) []byte {
+// readN reads until n bytes have arrived or the connection ends.  It gives up only
+// when nothing has arrived for d AFTER the sender has finished sending (sent is
+// closed by the sending goroutine): a slow machine never turns into a verdict.
+func readN(conn net.Conn, n int, d time.Duration, sent <-chan struct{}) []byte {
 	var got []byte
 	buf := make([]byte, 65536)
 	deadline := time.Now().Add(d)
+	senderDone := false
 	for len(got) < n {
+		if !senderDone {
+			select {
+			case <-sent:
+				senderDone = true
+			default:
+			}
+			deadline = time.Now().Add(d) // the clock only runs once everything has been sent
+		}
 		conn.SetReadDeadline(time.Now().Add(500 * time.Millisecond))
 		k, err := conn.Read(buf)
 		got = append(got, buf[:k]...)
 		if k > 0 {
 			tick()
+			deadline = time.Now().Add(d) // progress
 		}
 		if err != nil {
 			if ne, ok := err.(net.Error); ok && ne.Timeout() {
@@ -433,10 +479,19 @@ func execC19Session(c *child.Ctx, k proxyCase, cj []byte) {
 		var wg sync.WaitGroup
 		var upGot, clGot []byte
 		wg.Add(4)
-		go func() { defer wg.Done(); writeChunks(conn, clientBytes, k.Chunk, k.GapUs, ref.NewRand(k.Seed+1)) }()
-		go func() { defer wg.Done(); writeChunks(up, serverBytes, k.Chunk, k.GapUs, ref.NewRand(k.Seed+2)) }()
-		go func() { defer wg.Done(); upGot = readN(up, len(clientBytes), 20*time.Second) }()
-		go func() { defer wg.Done(); clGot = readN(conn, len(serverBytes), 20*time.Second) }()
+		clientSent, serverSent := make(chan struct{}), make(chan struct{})
+		go func() {
+			defer wg.Done()
+			writeChunks(conn, clientBytes, k.Chunk, k.GapUs, ref.NewRand(k.Seed+1))
+			close(clientSent)
+		}()
+		go func() {
+			defer wg.Done()
+			writeChunks(up, serverBytes, k.Chunk, k.GapUs, ref.NewRand(k.Seed+2))
+			close(serverSent)
+		}()
+		go func() { defer wg.Done(); upGot = readN(up, len(clientBytes), 20*time.Second, clientSent) }()
+		go func() { defer wg.Done(); clGot = readN(conn, len(serverBytes), 20*time.Second, serverSent) }()
 		// poll the status page continuously while traffic flows
 		var reports []string
 		var repMu sync.Mutex
@@ -482,7 +537,7 @@ func execC19Session(c *child.Ctx, k proxyCase, cj []byte) {
 				p.cmd.Process.Signal(syscall.SIGQUIT)
 				<-p.exited
 				dump := p.stderrTail()
-				if why := clientGoroutineBlockedInside(p.fullStderr()); why != "" {
+				if why := clientGoroutineBlockedInside(p.fullStderr()); why != "" && proxyAllBlocked(p.fullStderr()) {
 					c.Violate("relay-stopped", fmt.Sprintf("the proxy stopped relaying after %d of %d client bytes; its client-side goroutine is blocked inside the proxy (%s), not waiting for the network:\n%s", len(upGot), len(clientBytes), why, dump), cj)
 				} else {
 					c.Inconclusive("relay incomplete after 20 s without a logical explanation")
